@@ -1,5 +1,5 @@
 (* Proofs/StatsProofs.v -- lemmas behind Properties/C19.v *)
-From Coq Require Import List NArith Bool Lia ZifyBool ZifyN.
+From Coq Require Import List NArith Bool Lia ZifyBool ZifyN PeanoNat.
 From Verif Require Import Base.Str Base.StrFacts Model.Stats.
 Import ListNotations.
 Open Scope N_scope.
@@ -47,7 +47,9 @@ Lemma sumN_cons {A} (f : A -> N) x l : sumN f (x :: l) = f x + sumN f l.
 Proof. reflexivity. Qed.
 
 Lemma sumN_app {A} (f : A -> N) l1 l2 : sumN f (l1 ++ l2) = sumN f l1 + sumN f l2.
-Proof. induction l1; cbn [app sumN fold_right] in *; [lia|]. fold (sumN f (l1 ++ l2)). fold (sumN f l1). lia. Qed.
+Proof.
+  induction l1; cbn [app]; [change (sumN f []) with 0; lia|]. rewrite !sumN_cons, IHl1. lia.
+Qed.
 
 Lemma sumN_In_le {A} (f : A -> N) x l : In x l -> f x <= sumN f l.
 Proof.
@@ -131,7 +133,9 @@ Qed.
 
 Lemma insert_uniq_sorted x l : ssorted l -> ssorted (insert_uniq x l).
 Proof.
-  induction l; cbn [insert_uniq ssorted]; [intuition|]. intros [H1 H2].
+  induction l; cbn [insert_uniq ssorted].
+  { intros _. split; [intros y []|exact I]. }
+  intros [H1 H2].
   destruct (x <? a) eqn:E1; cbn [ssorted].
   - split; [|split; assumption]. intros y [Hy|Hy]; [subst; lia|]. specialize (H1 y Hy). lia.
   - destruct (x =? a) eqn:E2; cbn [ssorted]; [split; assumption|].
@@ -260,3 +264,745 @@ Qed.
 
 Lemma ai_line_all_ranges es x : ai_line es x = existsb (fun r => in_range r x) (all_ranges es).
 Proof. unfold ai_line, all_ranges. rewrite existsb_flat_map. reflexivity. Qed.
+
+(* ------------------------------------------------------------------ folds *)
+
+Lemma fold_res_inv {A B} (P : A -> Prop) (f : A -> B -> sres A) l :
+  (forall a x a', In x l -> f a x = SOk a' -> P a -> P a') ->
+  forall a a', fold_res f l a = SOk a' -> P a -> P a'.
+Proof.
+  induction l; intros Hf a0 a' H Pa; cbn [fold_res] in H.
+  - inversion H. subst. assumption.
+  - destruct (f a0 a) eqn:E; cbn [sbind] in H; [|discriminate].
+    apply (IHl (fun a1 x a2 Hx => Hf a1 x a2 (or_intror Hx)) _ _ H).
+    apply (Hf a0 a a1 (or_introl eq_refl) E Pa).
+Qed.
+
+Lemma fold_uadd {A} m (g : A -> N) l : forall a0 a,
+  fold_res (fun acc r => uadd m acc (g r)) l a0 = SOk a -> a0 + sumN g l <= u32_max -> a = a0 + sumN g l.
+Proof.
+  induction l; intros a0 a' H B; cbn [fold_res] in H.
+  - inversion H. change (sumN g []) with 0. lia.
+  - rewrite sumN_cons in *. destruct (uadd m a0 (g a)) eqn:E; cbn [sbind] in H; [|discriminate].
+    apply uadd_ok in E; [|lia]. subst. rewrite (IHl _ _ H); lia.
+Qed.
+
+(* ------------------------------------------------------------------ finite maps *)
+
+Definition keys {V} (m : list (str * V)) : list str := map fst m.
+Definition sumv {V} (h : V -> N) (m : list (str * V)) : N := sumN (fun kv => h (snd kv)) m.
+
+Lemma lookup_In {V} k (m : list (str * V)) v : lookup k m = Some v -> In (k, v) m.
+Proof.
+  induction m as [|[k' v'] m]; cbn [lookup]; [discriminate|].
+  destruct (str_eqb k k') eqn:E.
+  - intros H. inversion H. subst. apply str_eqb_eq in E. subst. left. reflexivity.
+  - intros H. right. apply IHm. assumption.
+Qed.
+
+Lemma lookup_None {V} k (m : list (str * V)) : lookup k m = None -> ~ In k (keys m).
+Proof.
+  induction m as [|[k' v'] m]; cbn [lookup keys map fst In]; [tauto|].
+  destruct (str_eqb k k') eqn:E; [discriminate|]. intros H [F|F].
+  - subst. rewrite str_eqb_refl in E. discriminate.
+  - apply (IHm H F).
+Qed.
+
+Lemma NoDup_snoc {A} (l : list A) k : NoDup l -> ~ In k l -> NoDup (l ++ [k]).
+Proof.
+  induction l; cbn [app]; intros ND NI.
+  - constructor; [intros []|constructor].
+  - inversion ND. subst. constructor.
+    + rewrite in_app_iff. cbn [In]. intros [F|[F|[]]]; [contradiction|]. subst. apply NI. left. reflexivity.
+    + apply IHl; [assumption|]. intros F. apply NI. right. assumption.
+Qed.
+
+(* what an update does: either a new binding at the end (from the default), or the first
+   binding of the key is replaced in place *)
+Lemma map_upd_inv {V} (d : V) k f (m m' : list (str * V)) : map_upd d k f m = SOk m' ->
+  exists v v', f v = SOk v' /\
+    ((lookup k m = None /\ v = d /\ m' = m ++ [(k, v')]) \/
+     (exists m1 m2, m = m1 ++ (k, v) :: m2 /\ m' = m1 ++ (k, v') :: m2)).
+Proof.
+  revert m'. induction m as [|[k' v0] m]; intros m' H; cbn [map_upd] in H.
+  - destruct (f d) eqn:E; cbn [sbind] in H; [|discriminate]. inversion H. subst.
+    exists d, a. split; [assumption|]. left. repeat split.
+  - destruct (str_eqb k k') eqn:K.
+    + apply str_eqb_eq in K. subst k'.
+      destruct (f v0) eqn:E; cbn [sbind] in H; [|discriminate]. inversion H. subst.
+      exists v0, a. split; [assumption|]. right. exists [], m. split; reflexivity.
+    + destruct (map_upd d k f m) eqn:E; cbn [sbind] in H; [|discriminate]. inversion H. subst.
+      destruct (IHm a eq_refl) as (v & v' & Hf & [(L & Hv & Hm)|(m1 & m2 & Hm & Hm')]).
+      * exists v, v'. split; [assumption|]. left. cbn [lookup]. rewrite K. subst. repeat split; assumption.
+      * exists v, v'. split; [assumption|]. right. exists ((k', v0) :: m1), m2. subst. split; reflexivity.
+Qed.
+
+Lemma sumv_app {V} (h : V -> N) m1 m2 : sumv h (m1 ++ m2) = sumv h m1 + sumv h m2.
+Proof. apply sumN_app. Qed.
+
+Lemma sumv_cons {V} (h : V -> N) kv m : sumv h (kv :: m) = h (snd kv) + sumv h m.
+Proof. reflexivity. Qed.
+
+Lemma sumv_nil {V} (h : V -> N) : sumv h [] = 0.
+Proof. reflexivity. Qed.
+
+(* the three consequences used below *)
+Lemma map_upd_facts {V} (d : V) k f (m m' : list (str * V)) : map_upd d k f m = SOk m' ->
+  exists v v', f v = SOk v' /\
+    (forall h : V -> N, h d = 0 -> sumv h m' + h v = sumv h m + h v' /\ h v <= sumv h m) /\
+    (NoDup (keys m) -> NoDup (keys m')) /\
+    (forall P : V -> Prop, P d -> (forall kv, In kv m -> P (snd kv)) -> P v /\ (P v' -> forall kv, In kv m' -> P (snd kv))).
+Proof.
+  intros H. destruct (map_upd_inv d k f m m' H) as (v & v' & Hf & [(L & Hv & Hm)|(m1 & m2 & Hm & Hm')]);
+    exists v, v'; (split; [assumption|]); subst.
+  - split; [|split].
+    + intros h Hd. rewrite sumv_app, sumv_cons, sumv_nil. cbn [snd]. rewrite Hd. lia.
+    + intros ND. unfold keys. rewrite map_app. cbn [map fst]. apply NoDup_snoc; [assumption|].
+      apply lookup_None. assumption.
+    + intros P Pd HP. split; [assumption|]. intros Pv kv Hin. apply in_app_iff in Hin.
+      destruct Hin as [Hin|[Hin|[]]]; [apply HP; assumption|subst; assumption].
+  - split; [|split].
+    + intros h Hd. rewrite !sumv_app, !sumv_cons. cbn [snd]. lia.
+    + unfold keys. rewrite !map_app. cbn [map fst]. tauto.
+    + intros P Pd HP. split.
+      * apply (HP (k, v)). apply in_app_iff. right. left. reflexivity.
+      * intros Pv kv Hin. apply in_app_iff in Hin. destruct Hin as [Hin|[Hin|Hin]].
+        -- apply HP. apply in_app_iff. left. assumption.
+        -- subst. assumption.
+        -- apply HP. apply in_app_iff. right. right. assumption.
+Qed.
+
+(* ------------------------------------------------------------------ accepted_from_attestations *)
+
+Definition entry_pure (ls : list N) (e : entry) : N := sumN (fun r => overlap_len r ls) (e_ranges e).
+Definition file_pure (ls : list N) (es : list entry) : N := sumN (entry_pure ls) es.
+Definition fatt_pure (added : list (str * list N)) (fa : fatt) : N :=
+  match lookup (f_path fa) added with Some ls => file_pure ls (f_entries fa) | None => 0 end.
+Definition atts_pure (added : list (str * list N)) (atts : list fatt) : N := sumN (fatt_pure added) atts.
+
+Definition idN (x : N) : N := x.
+(* the per-tool map accounts for the whole total *)
+Definition J (st : N * list (str * N)) : Prop := sumv idN (snd st) = fst st /\ NoDup (keys (snd st)).
+
+Definition has_prompt (prompts : list (str * prompt)) (e : entry) : bool :=
+  match lookup (e_hash e) prompts with Some _ => true | None => false end.
+
+Lemma entry_accepted_spec m ls e a : entry_accepted m ls e = SOk a -> entry_pure ls e <= u32_max ->
+  a = entry_pure ls e.
+Proof.
+  unfold entry_accepted, entry_pure. intros H B. apply fold_uadd in H; lia.
+Qed.
+
+Lemma entry_step_spec m prompts ls st e st' :
+  entry_step m prompts ls st e = SOk st' -> fst st + entry_pure ls e <= u32_max ->
+  fst st' = fst st + entry_pure ls e /\ (has_prompt prompts e = true -> J st -> J st').
+Proof.
+  unfold entry_step. intros H B.
+  destruct (entry_accepted m ls e) eqn:EA; cbn [sbind] in H; [|discriminate].
+  apply entry_accepted_spec in EA; [|lia]. subst a.
+  destruct (entry_pure ls e =? 0) eqn:Z.
+  - inversion H. subst. split; [lia|tauto].
+  - destruct (uadd m (fst st) (entry_pure ls e)) eqn:U; cbn [sbind] in H; [|discriminate].
+    apply uadd_ok in U; [|assumption]. subst a.
+    unfold has_prompt. destruct (lookup (e_hash e) prompts) as [p|].
+    + destruct (map_upd 0 (tool_key p) (fun v => uadd m v (entry_pure ls e)) (snd st)) eqn:MU;
+        cbn [sbind] in H; [|discriminate]. inversion H. subst. cbn [fst snd]. split; [reflexivity|].
+      intros _ [J1 J2]. destruct (map_upd_facts _ _ _ _ _ MU) as (v & v' & Hf & Hs & Hk & _).
+      destruct (Hs idN eq_refl) as [S1 S2]. change (idN v) with v in *. change (idN v') with v' in *.
+      cbn [fst snd] in *. apply uadd_ok in Hf; [|lia]. unfold J. cbn [fst snd]. split; [|apply Hk; assumption]. lia.
+    + inversion H. subst. cbn [fst snd]. split; [reflexivity|discriminate].
+Qed.
+
+Lemma entries_fold_spec m prompts ls es : forall st st',
+  fold_res (entry_step m prompts ls) es st = SOk st' -> fst st + file_pure ls es <= u32_max ->
+  fst st' = fst st + file_pure ls es /\ (forallb (has_prompt prompts) es = true -> J st -> J st').
+Proof.
+  induction es; intros st st' H B; cbn [fold_res] in H.
+  - inversion H. subst. change (file_pure ls []) with 0. split; [lia|tauto].
+  - unfold file_pure in *. rewrite sumN_cons in *.
+    destruct (entry_step m prompts ls st a) eqn:E; cbn [sbind] in H; [|discriminate].
+    destruct (entry_step_spec _ _ _ _ _ _ E) as [T1 T2]; [lia|].
+    destruct (IHes _ _ H) as [T3 T4]; [lia|]. split; [lia|].
+    cbn [forallb]. intros HP J0. apply andb_true_iff in HP. destruct HP. apply T4; [assumption|]. apply T2; assumption.
+Qed.
+
+Definition fatt_has_prompts (prompts : list (str * prompt)) (fa : fatt) : bool :=
+  forallb (has_prompt prompts) (f_entries fa).
+
+Lemma atts_fold_spec m prompts added atts : forall st st',
+  fold_res (file_step m prompts added) atts st = SOk st' -> fst st + atts_pure added atts <= u32_max ->
+  fst st' = fst st + atts_pure added atts /\ (forallb (fatt_has_prompts prompts) atts = true -> J st -> J st').
+Proof.
+  induction atts; intros st st' H B; cbn [fold_res] in H.
+  - inversion H. subst. change (atts_pure added []) with 0. split; [lia|tauto].
+  - unfold atts_pure in *. rewrite sumN_cons in *.
+    destruct (file_step m prompts added st a) eqn:E; cbn [sbind] in H; [|discriminate].
+    assert (fst a0 = fst st + fatt_pure added a /\ (fatt_has_prompts prompts a = true -> J st -> J a0)) as [T1 T2].
+    { unfold file_step, fatt_pure in *. destruct (lookup (f_path a) added).
+      - apply entries_fold_spec in E; [exact E|lia].
+      - inversion E. subst. split; [lia|tauto]. }
+    destruct (IHatts _ _ H) as [T3 T4]; [lia|]. split; [lia|].
+    cbn [forallb]. intros HP J0. apply andb_true_iff in HP. destruct HP. apply T4; [assumption|]. apply T2; assumption.
+Qed.
+
+
+Lemma accepted_spec m n added r :
+  accepted_from_attestations m n added false = SOk r -> atts_pure added (note_atts n) <= u32_max ->
+  fst r = atts_pure added (note_atts n) /\
+  (forallb (fatt_has_prompts (note_prompts n)) (note_atts n) = true -> sumv idN (snd r) = fst r /\ NoDup (keys (snd r))).
+Proof.
+  unfold accepted_from_attestations. destruct n as [n|]; cbn [note_atts note_prompts].
+  - intros H B. apply atts_fold_spec in H; [|cbn [fst]; lia]. cbn [fst] in H. destruct H as [H1 H2].
+    split; [lia|]. intros HP. apply H2; [assumption|]. split; [reflexivity|constructor].
+  - intros H _. inversion H. subst. cbn. split; [reflexivity|]. intros _. split; [reflexivity|constructor].
+Qed.
+
+Lemma accepted_merge m n added r : accepted_from_attestations m n added true = SOk r -> r = (0, []).
+Proof. unfold accepted_from_attestations. intros H. inversion H. reflexivity. Qed.
+
+(* the total is a u32 whatever the input *)
+Lemma accepted_le_max m n added mg r : accepted_from_attestations m n added mg = SOk r -> fst r <= u32_max.
+Proof.
+  unfold accepted_from_attestations. destruct mg; [intros H; inversion H; cbn; unfold u32_max; lia|].
+  destruct n as [n|]; [|intros H; inversion H; cbn; unfold u32_max; lia].
+  intros H. refine (fold_res_inv (fun st => fst st <= u32_max) _ _ _ _ _ H _).
+  - intros st fa st' _ E L. unfold file_step in E. destruct (lookup (f_path fa) added); [|inversion E; subst; assumption].
+    refine (fold_res_inv (fun s => fst s <= u32_max) _ _ _ _ _ E L). clear. intros s e s' _ E L. unfold entry_step in E.
+    destruct (entry_accepted m l e); cbn [sbind] in E; [|discriminate].
+    destruct (a =? 0); [inversion E; subst; assumption|].
+    destruct (uadd m (fst s) a) eqn:U; cbn [sbind] in E; [|discriminate]. apply uadd_le in U.
+    destruct (lookup (e_hash e) (n_prompts n)).
+    + destruct (map_upd 0 (tool_key p) (fun v => uadd m v a) (snd s)); cbn [sbind] in E; [|discriminate].
+      inversion E. subst. assumption.
+    + inversion E. subst. assumption.
+  - cbn. unfold u32_max. lia.
+Qed.
+
+(* ------------------------------------------------------------------ the glue: prep_added *)
+
+Lemma lookup_prep ignored raw p :
+  lookup p (prep_added ignored raw false)
+  = if ignored p then None else option_map sort_dedup (lookup p raw).
+Proof.
+  unfold prep_added. induction raw as [|[k v] raw]; cbn [filter map lookup fst snd].
+  - destruct (ignored p); reflexivity.
+  - destruct (ignored k) eqn:IK; cbn [negb map lookup fst snd].
+    + rewrite IHraw. destruct (str_eqb p k) eqn:E; [|reflexivity].
+      apply str_eqb_eq in E. subst. rewrite IK. reflexivity.
+    + destruct (str_eqb p k) eqn:E; [|assumption].
+      apply str_eqb_eq in E. subst. rewrite IK. reflexivity.
+Qed.
+
+Definition glen (ls : list N) : N := N.of_nat (length (nodup N.eq_dec ls)).
+
+Lemma added_count_cons ignored k v raw :
+  added_count ignored ((k, v) :: raw) = (if ignored k then 0 else glen v) + added_count ignored raw.
+Proof. unfold added_count, glen. cbn [fold_right fst snd]. destruct (ignored k); lia. Qed.
+
+Lemma lookup_len_le ignored raw p ls : lookup p raw = Some ls -> ignored p = false ->
+  glen ls <= added_count ignored raw.
+Proof.
+  induction raw as [|[k v] raw]; cbn [lookup]; [discriminate|]. intros H I. rewrite added_count_cons.
+  destruct (str_eqb p k) eqn:E.
+  - apply str_eqb_eq in E. subst. inversion H. subst. rewrite I. lia.
+  - specialize (IHraw H I). lia.
+Qed.
+
+Lemma file_pure_sorted ls es : ssorted ls -> N.of_nat (length ls) < u32_mod ->
+  pairwise ranges_disjoint (all_ranges es) = true -> file_pure ls es = cnt (ai_line es) ls.
+Proof.
+  intros S B D. unfold file_pure, entry_pure.
+  rewrite <- (sumN_flat_map (fun r => overlap_len r ls) e_ranges es). fold (all_ranges es).
+  rewrite (sumN_ext _ (fun r => cnt (in_range r) ls)) by (intros; apply overlap_sorted; assumption).
+  rewrite disjoint_sum_cnt by assumption. apply cnt_ext. intros. symmetry. apply ai_line_all_ranges.
+Qed.
+
+Definition inter_term (ignored : str -> bool) (raw : list (str * list N)) (fa : fatt) : N :=
+  if ignored (f_path fa) then 0
+  else match lookup (f_path fa) raw with
+       | Some ls => cnt (ai_line (f_entries fa)) (nodup N.eq_dec ls)
+       | None => 0
+       end.
+
+Lemma inter_count_sum ignored n raw : inter_count ignored n raw = sumN (inter_term ignored raw) (note_atts n).
+Proof.
+  destruct n as [n|]; [|reflexivity]. cbn [inter_count note_atts]. induction (n_atts n); [reflexivity|].
+  cbn [fold_right]. rewrite sumN_cons, <- IHl. unfold inter_term, cnt.
+  destruct (ignored (f_path a)); [lia|]. destruct (lookup (f_path a) raw); lia.
+Qed.
+
+Lemma atts_pure_inter ignored n raw :
+  added_count ignored raw <= u32_max -> olift note_disjoint n = true ->
+  atts_pure (prep_added ignored raw false) (note_atts n) = inter_count ignored n raw.
+Proof.
+  intros B D. rewrite inter_count_sum. unfold atts_pure. apply sumN_ext. intros fa Hin.
+  unfold fatt_pure, inter_term. rewrite lookup_prep. destruct (ignored (f_path fa)) eqn:I; [reflexivity|].
+  destruct (lookup (f_path fa) raw) as [ls|] eqn:L; cbn [option_map]; [|reflexivity].
+  pose proof (lookup_len_le _ _ _ _ L I) as LB. unfold glen in LB.
+  rewrite file_pure_sorted.
+  - apply sort_dedup_cnt.
+  - apply sort_dedup_sorted.
+  - rewrite sort_dedup_length. unfold u32_mod, u32_max in *. lia.
+  - destruct n as [n|]; [|destruct Hin]. cbn [olift note_atts] in *. unfold note_disjoint in D.
+    rewrite forallb_forall in D. apply D. assumption.
+Qed.
+
+(* ------------------------------------------------------------------ the intersection fits in the diff *)
+
+Definition pterm (ignored : str -> bool) (raw : list (str * list N)) (p : str) : N :=
+  if ignored p then 0 else match lookup p raw with Some ls => glen ls | None => 0 end.
+
+Lemma pterm_cons_ne ignored k v raw p : p <> k -> pterm ignored ((k, v) :: raw) p = pterm ignored raw p.
+Proof.
+  intros NE. unfold pterm. cbn [lookup]. destruct (str_eqb p k) eqn:E; [|reflexivity].
+  apply str_eqb_eq in E. contradiction.
+Qed.
+
+Lemma T_cons_notin ignored k v raw ps : ~ In k ps ->
+  sumN (pterm ignored ((k, v) :: raw)) ps = sumN (pterm ignored raw) ps.
+Proof.
+  intros NI. apply sumN_ext. intros p Hp. apply pterm_cons_ne. intros E. subst. contradiction.
+Qed.
+
+Lemma T_cons_le ignored k v raw ps : NoDup ps ->
+  sumN (pterm ignored ((k, v) :: raw)) ps <= sumN (pterm ignored raw) ps + (if ignored k then 0 else glen v).
+Proof.
+  induction ps as [|p ps]; intros ND.
+  - change (sumN (pterm ignored ((k, v) :: raw)) []) with 0. lia.
+  - inversion ND as [|? ? NI ND']. subst. rewrite !sumN_cons.
+    destruct (str_eqb p k) eqn:E.
+    + apply str_eqb_eq in E. subst p. rewrite T_cons_notin by assumption.
+      unfold pterm at 1. cbn [lookup]. rewrite str_eqb_refl. destruct (ignored k); lia.
+    + rewrite pterm_cons_ne; [|intros F; subst; rewrite str_eqb_refl in E; discriminate].
+      specialize (IHps ND'). lia.
+Qed.
+
+Lemma T_le ignored raw ps : NoDup ps -> sumN (pterm ignored raw) ps <= added_count ignored raw.
+Proof.
+  intros ND. induction raw as [|[k v] raw].
+  - rewrite (sumN_ext _ (fun _ => 0)).
+    + induction ps; [cbn; lia|]. rewrite sumN_cons. inversion ND. subst. specialize (IHps H2). lia.
+    + intros p _. unfold pterm. cbn [lookup]. destruct (ignored p); reflexivity.
+  - rewrite added_count_cons. pose proof (T_cons_le ignored k v raw ps ND). lia.
+Qed.
+
+Lemma sumN_map {A B} (f : B -> N) (g : A -> B) l : sumN f (map g l) = sumN (fun a => f (g a)) l.
+Proof. induction l; [reflexivity|]. cbn [map]. rewrite !sumN_cons, IHl. reflexivity. Qed.
+
+Lemma sumN_le {A} (f g : A -> N) l : (forall x, In x l -> f x <= g x) -> sumN f l <= sumN g l.
+Proof.
+  induction l; intros H; [cbn; lia|]. rewrite !sumN_cons. pose proof (H a (or_introl eq_refl)).
+  assert (sumN f l <= sumN g l) by (apply IHl; intros; apply H; right; assumption). lia.
+Qed.
+
+Lemma str_nodup_NoDup l : str_nodup l = true -> NoDup l.
+Proof.
+  induction l; [constructor|]. cbn [str_nodup]. intros H. apply andb_true_iff in H. destruct H as [H1 H2].
+  constructor; [|apply IHl; assumption]. intros Hin. apply negb_true_iff in H1.
+  assert (existsb (str_eqb a) l = true); [|congruence].
+  apply existsb_exists. exists a. split; [assumption|apply str_eqb_refl].
+Qed.
+
+Lemma inter_le_added ignored n raw : olift note_paths_unique n = true ->
+  inter_count ignored n raw <= added_count ignored raw.
+Proof.
+  intros U. rewrite inter_count_sum.
+  apply N.le_trans with (sumN (pterm ignored raw) (map f_path (note_atts n))).
+  - rewrite sumN_map. apply sumN_le. intros fa _. unfold inter_term, pterm.
+    destruct (ignored (f_path fa)); [lia|]. destruct (lookup (f_path fa) raw); [|lia].
+    unfold glen. apply cnt_le_length.
+  - apply T_le. destruct n as [n|]; [|constructor]. apply str_nodup_NoDup. exact U.
+Qed.
+
+(* ------------------------------------------------------------------ stats_from_log: the prompt loop *)
+
+Definition sumP (g : prompt -> N) (ps : list (str * prompt)) : N := sumN (fun hp => g (snd hp)) ps.
+
+Definition pstate := (N * N * N * list (str * tool_stats))%type.
+
+Lemma prompt_step_inv m (st st' : pstate) hp : prompt_step m st hp = SOk st' ->
+  uadd m (fst (fst (fst st))) (p_total_add (snd hp)) = SOk (fst (fst (fst st'))) /\
+  uadd m (snd (fst (fst st))) (p_total_del (snd hp)) = SOk (snd (fst (fst st'))) /\
+  uadd m (snd (fst st)) (p_overriden (snd hp)) = SOk (snd (fst st')) /\
+  map_upd tool_default (tool_key (snd hp)) (tool_add_prompt m (snd hp)) (snd st) = SOk (snd st').
+Proof.
+  destruct st as [[[ta td] mx] tools]. unfold prompt_step. cbn [fst snd].
+  destruct (uadd m ta _); cbn [sbind]; [|discriminate].
+  destruct (uadd m td _); cbn [sbind]; [|discriminate].
+  destruct (uadd m mx _); cbn [sbind]; [|discriminate].
+  destruct (map_upd _ _ _ _); cbn [sbind]; [|discriminate].
+  intros H. inversion H. subst. cbn [fst snd]. repeat split.
+Qed.
+
+Lemma tool_add_prompt_inv m p v v' : tool_add_prompt m p v = SOk v' ->
+  uadd m (t_total_add v) (p_total_add p) = SOk (t_total_add v') /\
+  uadd m (t_total_del v) (p_total_del p) = SOk (t_total_del v') /\
+  uadd m (t_mixed v) (p_overriden p) = SOk (t_mixed v') /\
+  t_accepted v' = t_accepted v.
+Proof.
+  unfold tool_add_prompt.
+  destruct (uadd m (t_total_add v) _); cbn [sbind]; [|discriminate].
+  destruct (uadd m (t_total_del v) _); cbn [sbind]; [|discriminate].
+  destruct (uadd m (t_mixed v) _); cbn [sbind]; [|discriminate].
+  intros H. inversion H. subst. cbn. repeat split.
+Qed.
+
+(* one accumulator [proj] of the loop together with the matching per-tool field [h] *)
+Section Field.
+  Variable m : ovf.
+  Variable proj : pstate -> N.
+  Variable h : tool_stats -> N.
+  Variable g : prompt -> N.
+  Hypothesis Hproj : forall st hp st', prompt_step m st hp = SOk st' ->
+    uadd m (proj st) (g (snd hp)) = SOk (proj st').
+  Hypothesis Hh : forall p v v', tool_add_prompt m p v = SOk v' -> uadd m (h v) (g p) = SOk (h v').
+  Hypothesis Hd : h tool_default = 0.
+
+  Lemma field_fold ps : forall st st' : pstate,
+    fold_res (prompt_step m) ps st = SOk st' ->
+    proj st + sumP g ps <= u32_max -> sumv h (snd st) = proj st ->
+    proj st' = proj st + sumP g ps /\ sumv h (snd st') = proj st'.
+  Proof.
+    induction ps as [|hp ps]; intros st st' H B S; cbn [fold_res] in H.
+    - inversion H. subst. change (sumP g []) with 0. split; [lia|assumption].
+    - unfold sumP in *. rewrite sumN_cons in *.
+      destruct (prompt_step m st hp) as [st1|] eqn:E; cbn [sbind] in H; [|discriminate].
+      pose proof (Hproj _ _ _ E) as U. apply uadd_ok in U; [|lia].
+      destruct (prompt_step_inv _ _ _ _ E) as (_ & _ & _ & MU).
+      destruct (map_upd_facts _ _ _ _ _ MU) as (v & v' & Hf & Hs & _).
+      destruct (Hs h Hd) as [S1 S2]. apply Hh in Hf. apply uadd_ok in Hf; [|lia].
+      destruct (IHps _ _ H) as [T1 T2]; [lia|lia|]. split; [lia|assumption].
+  Qed.
+End Field.
+
+Definition tools_struct (ts : list (str * tool_stats)) : Prop :=
+  NoDup (keys ts) /\ forall kt, In kt ts -> t_accepted (snd kt) = 0.
+
+Lemma prompt_fold_struct m ps (st st' : pstate) :
+  fold_res (prompt_step m) ps st = SOk st' -> tools_struct (snd st) -> tools_struct (snd st').
+Proof.
+  intros H. refine (fold_res_inv (fun st : pstate => tools_struct (snd st)) _ _ _ _ _ H).
+  clear. intros st hp st' _ E [S1 S2]. destruct (prompt_step_inv _ _ _ _ E) as (_ & _ & _ & MU).
+  destruct (map_upd_facts _ _ _ _ _ MU) as (v & v' & Hf & _ & Hk & HP).
+  split; [apply Hk; assumption|].
+  destruct (HP (fun t => t_accepted t = 0) eq_refl S2) as [Pv Pall]. apply Pall.
+  apply tool_add_prompt_inv in Hf. destruct Hf as (_ & _ & _ & A). congruence.
+Qed.
+
+Lemma prompt_fold_total_add m ps ta td mx tools :
+  fold_res (prompt_step m) ps (0, 0, 0, []) = SOk (ta, td, mx, tools) -> sumP p_total_add ps <= u32_max ->
+  ta = sumP p_total_add ps /\ sumv t_total_add tools = ta.
+Proof.
+  intros H B.
+  destruct (field_fold m (fun st => fst (fst (fst st))) t_total_add p_total_add) with (ps := ps)
+    (st := (0, 0, 0, @nil (str * tool_stats))) (st' := (ta, td, mx, tools)) as [T1 T2];
+    try assumption; try reflexivity.
+  - intros st hp st' E. apply prompt_step_inv in E. tauto.
+  - intros p v v' E. apply tool_add_prompt_inv in E. tauto.
+  - cbn [fst snd] in *. split; [lia|assumption].
+Qed.
+
+Lemma prompt_fold_total_del m ps ta td mx tools :
+  fold_res (prompt_step m) ps (0, 0, 0, []) = SOk (ta, td, mx, tools) -> sumP p_total_del ps <= u32_max ->
+  td = sumP p_total_del ps /\ sumv t_total_del tools = td.
+Proof.
+  intros H B.
+  destruct (field_fold m (fun st => snd (fst (fst st))) t_total_del p_total_del) with (ps := ps)
+    (st := (0, 0, 0, @nil (str * tool_stats))) (st' := (ta, td, mx, tools)) as [T1 T2];
+    try assumption; try reflexivity.
+  - intros st hp st' E. apply prompt_step_inv in E. tauto.
+  - intros p v v' E. apply tool_add_prompt_inv in E. tauto.
+  - cbn [fst snd] in *. split; [lia|assumption].
+Qed.
+
+Lemma prompt_fold_mixed m ps ta td mx tools :
+  fold_res (prompt_step m) ps (0, 0, 0, []) = SOk (ta, td, mx, tools) -> sumP p_overriden ps <= u32_max ->
+  mx = sumP p_overriden ps /\ sumv t_mixed tools = mx.
+Proof.
+  intros H B.
+  destruct (field_fold m (fun st => snd (fst st)) t_mixed p_overriden) with (ps := ps)
+    (st := (0, 0, 0, @nil (str * tool_stats))) (st' := (ta, td, mx, tools)) as [T1 T2];
+    try assumption; try reflexivity.
+  - intros st hp st' E. apply prompt_step_inv in E. tauto.
+  - intros p v v' E. apply tool_add_prompt_inv in E. tauto.
+  - cbn [fst snd] in *. split; [lia|assumption].
+Qed.
+
+(* ------------------------------------------------------------------ the per-tool accepted counts *)
+
+Lemma accepted_fold_spec bt : forall ts ts1,
+  fold_res accepted_step bt ts = SOk ts1 -> NoDup (keys bt) -> NoDup (keys ts) ->
+  (forall kt, In kt ts -> In (fst kt) (keys bt) -> t_accepted (snd kt) = 0) ->
+  sumv t_accepted ts1 = sumv t_accepted ts + sumv idN bt /\
+  sumv t_mixed ts1 = sumv t_mixed ts /\ sumv t_total_add ts1 = sumv t_total_add ts /\
+  sumv t_total_del ts1 = sumv t_total_del ts.
+Proof.
+  induction bt as [|[k a] bt]; intros ts ts1 H NB NT Z; cbn [fold_res] in H.
+  - inversion H. subst. rewrite sumv_nil. repeat split. lia.
+  - destruct (accepted_step ts (k, a)) as [ts'|] eqn:E; cbn [sbind] in H; [|discriminate].
+    unfold accepted_step in E. cbn [fst snd] in E.
+    cbn [keys map fst] in NB. inversion NB as [|? ? NK NB']. subst.
+    pose proof (map_upd_facts _ _ _ _ _ E) as (v0 & v0' & _ & _ & Hk & _). specialize (Hk NT).
+    destruct (map_upd_inv _ _ _ _ _ E) as (v & v' & Hf & [(L & Hv & Hm)|(m1 & m2 & Hm & Hm')]);
+      inversion Hf; subst v'.
+    + subst v ts'. destruct (IHbt _ _ H NB' Hk) as (A1 & A2 & A3 & A4).
+      { intros kt Hin Hkey. apply in_app_iff in Hin. destruct Hin as [Hin|[Hin|[]]].
+        - apply Z; [assumption|]. cbn [keys map fst In]. right. exact Hkey.
+        - subst kt. cbn [fst] in Hkey. contradiction. }
+      rewrite !sumv_app, !sumv_cons, !sumv_nil in *. cbn [snd fst set_accepted tool_default t_accepted t_mixed t_total_add t_total_del] in *.
+      rewrite ?sumv_cons. cbn [snd]. change (idN a) with a. repeat split; lia.
+    + subst ts ts'. assert (t_accepted v = 0) as Zv.
+      { apply (Z (k, v)); [apply in_app_iff; right; left; reflexivity|]. cbn [fst keys map In]. left. reflexivity. }
+      destruct (IHbt _ _ H NB' Hk) as (A1 & A2 & A3 & A4).
+      { intros kt Hin Hkey. apply in_app_iff in Hin. destruct Hin as [Hin|[Hin|Hin]].
+        - apply Z; [apply in_app_iff; left; assumption|]. cbn [keys map fst In]. right. exact Hkey.
+        - subst kt. cbn [fst] in Hkey. contradiction.
+        - apply Z; [apply in_app_iff; right; right; assumption|]. cbn [keys map fst In]. right. exact Hkey. }
+      rewrite !sumv_app, !sumv_cons in *. cbn [snd fst set_accepted t_accepted t_mixed t_total_add t_total_del] in *.
+      rewrite ?sumv_cons. cbn [snd]. change (idN a) with a. repeat split; lia.
+Qed.
+
+Lemma map_res_finish m ts : forall ts2, map_res (tool_finish m) ts = SOk ts2 ->
+  (forall h : tool_stats -> N, (forall a t, h (set_ai a t) = h t) -> sumv h ts2 = sumv h ts) /\
+  ((forall kt, In kt ts -> t_accepted (snd kt) + t_mixed (snd kt) <= u32_max) ->
+   sumv t_ai_additions ts2 = sumv t_accepted ts + sumv t_mixed ts).
+Proof.
+  induction ts as [|kt ts]; intros ts2 H; cbn [map_res] in H.
+  - inversion H. subst. split; intros; rewrite ?sumv_nil; reflexivity.
+  - destruct (tool_finish m kt) as [kt2|] eqn:E; cbn [sbind] in H; [|discriminate].
+    destruct (map_res (tool_finish m) ts) as [ts2'|] eqn:E2; cbn [sbind] in H; [|discriminate].
+    inversion H. subst. destruct (IHts _ eq_refl) as [I1 I2].
+    unfold tool_finish in E. destruct (uadd m _ _) eqn:U; cbn [sbind] in E; [|discriminate].
+    inversion E. subst. split.
+    + intros h Hh. rewrite !sumv_cons. cbn [snd]. rewrite Hh, I1 by assumption. reflexivity.
+    + intros B. rewrite !sumv_cons. cbn [snd set_ai t_ai_additions].
+      apply uadd_ok in U; [|apply B; left; reflexivity].
+      rewrite I2 by (intros; apply B; right; assumption). lia.
+Qed.
+
+(* ------------------------------------------------------------------ stats_from_log, inverted *)
+
+Lemma stats_from_log_inv m n ga gd acc bt s : stats_from_log m n ga gd acc bt = SOk s ->
+  exists ta td mx tools tools1,
+    fold_res (prompt_step m) (note_prompts n) (0, 0, 0, []) = SOk (ta, td, mx, tools) /\
+    fold_res accepted_step bt tools = SOk tools1 /\
+    map_res (tool_finish m) tools1 = SOk (s_tools s) /\
+    s_mixed s = (if sat_sub ga acc <? mx then sat_sub ga acc else mx) /\
+    uadd m (s_mixed s) acc = SOk (s_ai_additions s) /\
+    s_human s = sat_sub ga acc /\ s_accepted s = acc /\ s_total_add s = ta /\ s_total_del s = td /\
+    s_deleted s = gd /\ s_added s = ga.
+Proof.
+  unfold stats_from_log.
+  destruct (fold_res (prompt_step m) (note_prompts n) (0, 0, 0, [])) as [[[[ta td] mx] tools]|] eqn:E1;
+    cbn [sbind]; [|discriminate].
+  destruct (fold_res accepted_step bt tools) as [tools1|] eqn:E2; cbn [sbind]; [|discriminate].
+  destruct (uadd m _ acc) as [ai|] eqn:E3; cbn [sbind]; [|discriminate].
+  destruct (map_res (tool_finish m) tools1) as [tools2|] eqn:E4; cbn [sbind]; [|discriminate].
+  intros H. inversion H. subst. cbn. exists ta, td, mx, tools, tools1. repeat split; assumption.
+Qed.
+
+(* ------------------------------------------------------------------ the statements of C19 *)
+
+Lemma commit_stats_inv m ignored n raw mg ga gd s :
+  commit_stats m ignored n raw mg ga gd = SOk s ->
+  exists r, accepted_from_attestations m n (prep_added ignored raw mg) mg = SOk r /\
+            stats_from_log m n ga gd (fst r) (snd r) = SOk s.
+Proof.
+  unfold commit_stats. destruct (accepted_from_attestations _ _ _ _) as [r|]; cbn [sbind]; [|discriminate].
+  intros H. exists r. split; [reflexivity|assumption].
+Qed.
+
+Lemma prompts_present_conv n :
+  olift note_prompts_present n = forallb (fatt_has_prompts (note_prompts n)) (note_atts n).
+Proof. destruct n; reflexivity. Qed.
+
+Lemma accepted_any m ignored n raw mg r :
+  accepted_from_attestations m n (prep_added ignored raw mg) mg = SOk r ->
+  olift note_disjoint n = true -> olift note_paths_unique n = true -> added_count ignored raw <= u32_max ->
+  fst r <= added_count ignored raw /\
+  (mg = false -> fst r = inter_count ignored n raw) /\
+  (olift note_prompts_present n = true -> sumv idN (snd r) = fst r /\ NoDup (keys (snd r))).
+Proof.
+  intros H D U B. destruct mg.
+  - apply accepted_merge in H. subst. cbn [fst snd]. split; [lia|]. split; [discriminate|].
+    intros _. split; [reflexivity|constructor].
+  - pose proof (atts_pure_inter ignored n raw B D) as E. pose proof (inter_le_added ignored n raw U) as LE.
+    apply accepted_spec in H; [|lia]. destruct H as [H1 H2]. rewrite E in H1.
+    split; [lia|]. split; [intros _; assumption|]. rewrite prompts_present_conv. assumption.
+Qed.
+
+Lemma sum_tools_sumv f ts : sum_tools f ts = sumv f ts.
+Proof. reflexivity. Qed.
+
+Lemma mixed_le_cap ga acc mx : (if sat_sub ga acc <? mx then sat_sub ga acc else mx) <= sat_sub ga acc.
+Proof. destruct (sat_sub ga acc <? mx) eqn:E; lia. Qed.
+
+(* accepted <= added *)
+Lemma accepted_le_added m ignored n raw mg ga gd s :
+  commit_stats m ignored n raw mg ga gd = SOk s ->
+  olift note_disjoint n = true -> olift note_paths_unique n = true ->
+  ga = added_count ignored raw -> ga <= u32_max ->
+  s_accepted s <= s_added s.
+Proof.
+  intros H D U A B. apply commit_stats_inv in H. destruct H as (r & H1 & H2).
+  apply stats_from_log_inv in H2. destruct H2 as (ta & td & mx & tools & tools1 & _ & _ & _ & _ & _ & _ & Hacc & _ & _ & _ & Hadd).
+  assert (added_count ignored raw <= u32_max) as B' by lia.
+  destruct (accepted_any _ _ _ _ _ _ H1 D U B') as [LE _]. lia.
+Qed.
+
+(* human + accepted = max added accepted, whatever the note *)
+Lemma human_plus_accepted_max m ignored n raw mg ga gd s :
+  commit_stats m ignored n raw mg ga gd = SOk s ->
+  s_human s + s_accepted s = N.max (s_added s) (s_accepted s).
+Proof.
+  intros H. apply commit_stats_inv in H. destruct H as (r & H1 & H2).
+  apply stats_from_log_inv in H2. destruct H2 as (ta & td & mx & tools & tools1 & _ & _ & _ & _ & _ & Hh & Hacc & _ & _ & _ & Hadd).
+  rewrite Hh, Hacc, Hadd, sat_sub_spec. lia.
+Qed.
+
+Lemma human_plus_accepted m ignored n raw mg ga gd s :
+  commit_stats m ignored n raw mg ga gd = SOk s ->
+  olift note_disjoint n = true -> olift note_paths_unique n = true ->
+  ga = added_count ignored raw -> ga <= u32_max ->
+  s_human s + s_accepted s = s_added s.
+Proof.
+  intros H D U A B. pose proof (accepted_le_added _ _ _ _ _ _ _ _ H D U A B).
+  rewrite (human_plus_accepted_max _ _ _ _ _ _ _ _ H). lia.
+Qed.
+
+(* ai_additions = accepted + mixed: only needs that git_added is a u32 *)
+Lemma ai_eq_accepted_plus_mixed m ignored n raw mg ga gd s :
+  commit_stats m ignored n raw mg ga gd = SOk s -> ga <= u32_max ->
+  s_ai_additions s = s_accepted s + s_mixed s.
+Proof.
+  intros H B. apply commit_stats_inv in H. destruct H as (r & H1 & H2).
+  apply accepted_le_max in H1.
+  apply stats_from_log_inv in H2. destruct H2 as (ta & td & mx & tools & tools1 & _ & _ & _ & Hm & Hai & _ & Hacc & _ & _ & _ & _).
+  pose proof (mixed_le_cap ga (fst r) mx) as C. rewrite <- Hm in C. rewrite sat_sub_spec in C.
+  apply uadd_ok in Hai; lia.
+Qed.
+
+Lemma ai_le_added m ignored n raw mg ga gd s :
+  commit_stats m ignored n raw mg ga gd = SOk s ->
+  olift note_disjoint n = true -> olift note_paths_unique n = true ->
+  ga = added_count ignored raw -> ga <= u32_max ->
+  s_ai_additions s <= s_added s.
+Proof.
+  intros H D U A B. pose proof (accepted_le_added _ _ _ _ _ _ _ _ H D U A B) as LE.
+  rewrite (ai_eq_accepted_plus_mixed _ _ _ _ _ _ _ _ H B).
+  apply commit_stats_inv in H. destruct H as (r & H1 & H2).
+  apply stats_from_log_inv in H2. destruct H2 as (ta & td & mx & tools & tools1 & _ & _ & _ & Hm & _ & _ & Hacc & _ & _ & _ & Hadd).
+  pose proof (mixed_le_cap ga (fst r) mx) as C. rewrite <- Hm in C. rewrite sat_sub_spec in C. lia.
+Qed.
+
+Lemma accepted_is_intersection m ignored n raw ga gd s :
+  commit_stats m ignored n raw false ga gd = SOk s ->
+  olift note_disjoint n = true -> olift note_paths_unique n = true ->
+  added_count ignored raw <= u32_max ->
+  s_accepted s = inter_count ignored n raw.
+Proof.
+  intros H D U B. apply commit_stats_inv in H. destruct H as (r & H1 & H2).
+  apply stats_from_log_inv in H2. destruct H2 as (ta & td & mx & tools & tools1 & _ & _ & _ & _ & _ & _ & Hacc & _).
+  destruct (accepted_any _ _ _ _ _ _ H1 D U B) as (_ & E & _). rewrite Hacc. apply E. reflexivity.
+Qed.
+
+Lemma sumv_zero {V} (h : V -> N) ts : (forall kt, In kt ts -> h (snd kt) = 0) -> sumv h ts = 0.
+Proof.
+  induction ts; intros H; [reflexivity|]. rewrite sumv_cons, (H a) by (left; reflexivity).
+  rewrite IHts; [reflexivity|]. intros. apply H. right. assumption.
+Qed.
+
+Lemma accepted_fold_other (h : tool_stats -> N) bt ts ts1 :
+  (forall a t, h (set_accepted a t) = h t) -> h tool_default = 0 ->
+  fold_res accepted_step bt ts = SOk ts1 -> sumv h ts1 = sumv h ts.
+Proof.
+  intros Hs Hd H. refine (fold_res_inv (fun t => sumv h t = sumv h ts) _ _ _ _ _ H eq_refl).
+  clear H. intros t ka t' _ E P. unfold accepted_step in E.
+  destruct (map_upd_facts _ _ _ _ _ E) as (v & v' & Hf & Hsum & _). inversion Hf. subst v'.
+  destruct (Hsum h Hd) as [S1 _]. rewrite Hs in S1. lia.
+Qed.
+
+Lemma tools_struct_nil : tools_struct [].
+Proof. split; [constructor|intros kt []]. Qed.
+
+(* per-tool accepted sums to the total accepted *)
+Lemma tool_accepted_sums m ignored n raw mg ga gd s :
+  commit_stats m ignored n raw mg ga gd = SOk s ->
+  onote_ok n = true -> added_count ignored raw <= u32_max ->
+  sum_tools t_accepted (s_tools s) = s_accepted s.
+Proof.
+  intros H OK B. apply commit_stats_inv in H. destruct H as (r & H1 & H2).
+  assert (olift note_disjoint n = true /\ olift note_paths_unique n = true /\ olift note_prompts_present n = true)
+    as (D & U & PP).
+  { destruct n as [n|]; [|repeat split]. cbn [onote_ok olift] in *. unfold note_ok in OK.
+    apply andb_true_iff in OK. destruct OK as [OK P]. apply andb_true_iff in OK. tauto. }
+  destruct (accepted_any _ _ _ _ _ _ H1 D U B) as (_ & _ & J1). destruct (J1 PP) as [JS JN].
+  apply stats_from_log_inv in H2.
+  destruct H2 as (ta & td & mx & tools & tools1 & F1 & F2 & F3 & _ & _ & _ & Hacc & _).
+  pose proof (prompt_fold_struct _ _ _ _ F1 tools_struct_nil) as [TS1 TS2]. cbn [snd] in TS1, TS2.
+  destruct (accepted_fold_spec _ _ _ F2 JN TS1) as (A1 & _); [intros; apply TS2; assumption|].
+  destruct (map_res_finish _ _ _ F3) as [M1 _].
+  rewrite sum_tools_sumv, (M1 t_accepted) by reflexivity. rewrite A1, (sumv_zero t_accepted tools) by assumption. lia.
+Qed.
+
+Lemma sum_overriden_sumP n : sum_overriden n = sumP p_overriden (note_prompts n).
+Proof. destruct n; reflexivity. Qed.
+
+(* when the cap of the total does not fire, the per-tool mixed / ai_additions sum to the totals too *)
+Lemma tool_mixed_sums_no_cap m ignored n raw mg ga gd s :
+  commit_stats m ignored n raw mg ga gd = SOk s ->
+  onote_ok n = true -> ga = added_count ignored raw -> ga <= u32_max ->
+  Known_C19 n ga (s_accepted s) = false ->
+  sum_tools t_mixed (s_tools s) = s_mixed s /\ sum_tools t_ai_additions (s_tools s) = s_ai_additions s.
+Proof.
+  intros H OK A B K.
+  assert (olift note_disjoint n = true /\ olift note_paths_unique n = true) as (D & U).
+  { destruct n as [n|]; [|repeat split]. cbn [onote_ok olift] in *. unfold note_ok in OK.
+    apply andb_true_iff in OK. destruct OK as [OK P]. apply andb_true_iff in OK. tauto. }
+  pose proof (accepted_le_added _ _ _ _ _ _ _ _ H D U A B) as LE.
+  pose proof (ai_eq_accepted_plus_mixed _ _ _ _ _ _ _ _ H B) as AI.
+  assert (added_count ignored raw <= u32_max) as B' by (subst; assumption).
+  pose proof (tool_accepted_sums _ _ _ _ _ _ _ _ H OK B') as TA.
+  apply commit_stats_inv in H. destruct H as (r & H1 & H2).
+  apply stats_from_log_inv in H2.
+  destruct H2 as (ta & td & mx & tools & tools1 & F1 & F2 & F3 & Hm & _ & _ & Hacc & _ & _ & _ & Hadd).
+  unfold Known_C19 in K. rewrite sum_overriden_sumP, Hacc in K. rewrite Hacc, Hadd in LE.
+  rewrite sat_sub_spec in *.
+  destruct (prompt_fold_mixed _ _ _ _ _ _ F1) as [X1 X2]; [lia|].
+  assert (s_mixed s = mx) as SM by (rewrite Hm; destruct (ga - fst r <? mx) eqn:E; lia).
+  pose proof (accepted_fold_other t_mixed _ _ _ (fun _ _ => eq_refl) eq_refl F2) as Y.
+  destruct (map_res_finish _ _ _ F3) as [M1 M2].
+  rewrite !sum_tools_sumv in *. rewrite (M1 t_accepted) in TA by reflexivity.
+  split.
+  - rewrite ?sum_tools_sumv. rewrite (M1 t_mixed) by reflexivity. lia.
+  - rewrite ?sum_tools_sumv. rewrite M2; [lia|]. intros kt Hin.
+    pose proof (sumN_In_le (fun kv => t_accepted (snd kv)) kt tools1 Hin) as L1.
+    pose proof (sumN_In_le (fun kv => t_mixed (snd kv)) kt tools1 Hin) as L2.
+    unfold sumv in *. cbn beta in *. lia.
+Qed.
+
+(* the generated / deleted counters of the breakdown sum to the totals when the totals fit in a u32 *)
+Lemma tool_totals_sum m ignored n raw mg ga gd s :
+  commit_stats m ignored n raw mg ga gd = SOk s ->
+  sumP p_total_add (note_prompts n) <= u32_max -> sumP p_total_del (note_prompts n) <= u32_max ->
+  sum_tools t_total_add (s_tools s) = s_total_add s /\ sum_tools t_total_del (s_tools s) = s_total_del s.
+Proof.
+  intros H BA BD. apply commit_stats_inv in H. destruct H as (r & H1 & H2).
+  apply stats_from_log_inv in H2.
+  destruct H2 as (ta & td & mx & tools & tools1 & F1 & F2 & F3 & _ & _ & _ & _ & Hta & Htd & _).
+  destruct (prompt_fold_total_add _ _ _ _ _ _ F1 BA) as [_ X].
+  destruct (prompt_fold_total_del _ _ _ _ _ _ F1 BD) as [_ Y].
+  pose proof (accepted_fold_other t_total_add _ _ _ (fun _ _ => eq_refl) eq_refl F2) as Z1.
+  pose proof (accepted_fold_other t_total_del _ _ _ (fun _ _ => eq_refl) eq_refl F2) as Z2.
+  destruct (map_res_finish _ _ _ F3) as [M1 _].
+  split; rewrite sum_tools_sumv; [rewrite (M1 t_total_add) by reflexivity|rewrite (M1 t_total_del) by reflexivity]; lia.
+Qed.
+
+(* git_added / git_deleted are passed through *)
+Lemma added_deleted_passthrough m ignored n raw mg ga gd s :
+  commit_stats m ignored n raw mg ga gd = SOk s -> s_added s = ga /\ s_deleted s = gd.
+Proof.
+  intros H. apply commit_stats_inv in H. destruct H as (r & H1 & H2).
+  apply stats_from_log_inv in H2.
+  destruct H2 as (ta & td & mx & tools & tools1 & _ & _ & _ & _ & _ & _ & _ & _ & _ & Hd & Ha). tauto.
+Qed.
